@@ -316,3 +316,24 @@ def sanitizer_key(text):
         if len(frames) >= 2:
             break
     return "|".join([kind] + frames)
+
+
+def comma_locale(root):
+    """A private locale 'xx_XX' identical to POSIX except for a decimal COMMA, compiled with localedef from a hand-written charmap and
+    source (no locale sources are installed in the sandbox).  Returns the LOCPATH directory, or None if localedef is missing/fails."""
+    import shutil
+    if shutil.which("localedef") is None:
+        return None
+    loc = os.path.join(root, "loc")
+    os.makedirs(loc, exist_ok=True)
+    cm = os.path.join(root, "ascii.cm")
+    with open(cm, "w") as f:
+        f.write("<code_set_name> ANSI_X3.4-1968\n<comment_char> %\n<escape_char> /\n<mb_cur_min> 1\n<mb_cur_max> 1\nCHARMAP\n")
+        for i in range(128):
+            f.write("<U%04X>     /x%02x         CH%d\n" % (i, i, i))
+        f.write("END CHARMAP\n")
+    src = os.path.join(root, "comma.src")
+    with open(src, "w") as f:
+        f.write('comment_char %\nescape_char /\nLC_NUMERIC\ndecimal_point "<U002C>"\nthousands_sep ""\ngrouping -1\nEND LC_NUMERIC\n')
+    subprocess.run(["localedef", "-c", "-f", cm, "-i", src, os.path.join(loc, "xx_XX")], stdout=subprocess.DEVNULL, stderr=subprocess.DEVNULL)
+    return loc if os.path.isdir(os.path.join(loc, "xx_XX")) else None
